@@ -126,9 +126,11 @@ Chk(t) == /\ pc[t] = "chk"
 \* ---------------------------------------------------------------- put
 PUndel(t) == /\ pc[t] = "p_undel" /\ SetVer(loc[t].b, [nd[loc[t].b].ver EXCEPT !.del = FALSE]) /\ Goto(t, "p_slot")
              /\ UNCHANGED <<pnode, rootp, rootlock, loc, abs, seen, res>>
-PSlot(t) == /\ pc[t] = "p_slot" /\ Len(nd[loc[t].b].perm) < F
-            /\ LET b == loc[t].b s == FreeSlot(nd[b].perm) IN nd' = [nd EXCEPT ![b].ks[s] = Op(t).k, ![b].lv[s] = Op(t).v] /\ loc' = [loc EXCEPT ![t].idx = s]
-            /\ Goto(t, "p_pub") /\ UNCHANGED <<pnode, rootp, rootlock, abs, seen, res>>
+\* the free slot is taken from the permutation word's free list (order = history of removes): any free slot; the model check uses the lowest
+PSlotAt(t, s) == /\ pc[t] = "p_slot" /\ Len(nd[loc[t].b].perm) < F /\ s \in Slots /\ \A i \in 1..Len(nd[loc[t].b].perm) : nd[loc[t].b].perm[i] # s
+                 /\ LET b == loc[t].b IN nd' = [nd EXCEPT ![b].ks[s] = Op(t).k, ![b].lv[s] = Op(t).v] /\ loc' = [loc EXCEPT ![t].idx = s]
+                 /\ Goto(t, "p_pub") /\ UNCHANGED <<pnode, rootp, rootlock, abs, seen, res>>
+PSlot(t) == pc[t] = "p_slot" /\ PSlotAt(t, FreeSlot(nd[loc[t].b].perm))
 PPub(t) == /\ pc[t] = "p_pub" /\ LET b == loc[t].b IN nd' = [nd EXCEPT ![b].perm = InsertAt(@, RankOf(b, @, Op(t).k), loc[t].idx)]
            /\ Commit(Op(t).k, Op(t).v) /\ Goto(t, "p_unlock") /\ UNCHANGED <<pnode, rootp, rootlock, loc, res>>
 PSet(t) == /\ pc[t] = "p_set" /\ nd' = [nd EXCEPT ![loc[t].b].lv[loc[t].idx] = Op(t).v] /\ Commit(Op(t).k, Op(t).v)
